@@ -162,8 +162,12 @@ def make_bias(rng, cv, bname, allow_centers=True):
                 b["work"] = True
                 lines.append("  outputAccumulatedWork on")
         elif kind == "harmonic_kmoving":
-            lines.append("  targetForceConstant %s" % fnum(round(rng.uniform(4.0, 9.0), 3)))
-            lines.append("  targetNumSteps %d" % rng.choice([10, 17, 40]))
+            k0_ = float(lines[-1].split()[-1])
+            k1_ = 0.0 if rng.random() < 0.35 else round(rng.uniform(4.0, 9.0), 3)     # schedules ending at exactly zero included
+            n_ = rng.choice([10, 17, 40])
+            lines.append("  targetForceConstant %s" % fnum(k1_))
+            lines.append("  targetNumSteps %d" % n_)
+            b["km"] = dict(k0=k0_, k1=k1_, N=n_, c0=c0)
             if rng.random() < 0.7:
                 b["work"] = True
                 lines.append("  outputAccumulatedWork on")
@@ -313,6 +317,51 @@ def state_bias_params(state, bname):
     return out
 
 
+def textbook_work(case, steps):
+    """accumulated work of the restraints with a changing force constant that exist from the first step of the session:
+    W(t) = sum_{s = first+1 .. t} dU/dk(x_s) (k_s - k_{s-1}), k_s = k0 + (k1 - k0) min(1, (s - first)/N), dU/dk = d(x_s, c)^2 / (2 w^2),
+    from the values x_s the variable actually took (step events).  {bias name: {step: W}}"""
+    out = {}
+    byit = {}
+    for e in steps:
+        byit[e["it"]] = e             # a repeated step carries the same values
+    its = sorted(byit)
+    if not its or its[0] != 0:
+        # a session whose step counter is set after the objects were defined: the schedules count from the step of definition,
+        # which the engine-side log does not show
+        return out
+    first = its[0]
+    cvs = {cv["name"]: cv for cv in case["cvs"]}
+    for b in case["biases"]:
+        km = b.get("km")
+        if not km or not b.get("work") or b.get("kind_obj") or b["cv"] not in cvs or not b.get("initial", True):
+            continue
+        cv = cvs[b["cv"]]
+        m = re.search(r"\n  width (\S+)", cv["text"])
+        w = float(m.group(1)) if m else 1.0
+        per = cv.get("period") or 0.0
+        W, ok = 0.0, True
+        res = {first: 0.0}
+        for t in its[1:]:
+            e = byit[t]
+            if t - 1 not in byit or b["name"] not in e.get("bias", {}) or b["cv"] not in e.get("cv", {}):
+                ok = False
+                break
+            x = fl(e["cv"][b["cv"]]["x"][0])
+            d = x - fl(km["c0"] if not isinstance(km["c0"], (list, tuple)) else km["c0"][0])
+            if per:
+                d -= per * math.floor(d / per + 0.5)
+            lam_t = min(1.0, (t - first) / float(km["N"]))
+            lam_p = min(1.0, (t - 1 - first) / float(km["N"]))
+            kt = km["k0"] + (km["k1"] - km["k0"]) * lam_t
+            kp = km["k0"] + (km["k1"] - km["k0"]) * lam_p
+            W += 0.5 * d * d / (w * w) * (kt - kp)
+            res[t] = W
+        if ok:
+            out[b["name"]] = res
+    return out
+
+
 def check_traj_case(c, case, r, ev, sp, tag, wd):
     """returns number of data lines verified"""
     cvnames = {cv["name"]: cv for cv in case["cvs"]}
@@ -343,6 +392,7 @@ def check_traj_case(c, case, r, ev, sp, tag, wd):
     # expected lines per file: walk ops and events in lock-step
     steps = [e for e in ev if e["ev"] == "step"]
     saves = [e for e in ev if e["ev"] == "savestr"]
+    tbw = textbook_work(case, steps)
     nstep_ops = sum(1 for op in case["ops"] if op[0] == "step")
     if len(steps) != nstep_ops or len(saves) != nstep_ops:
         c.inconc("traj case %d: %d step events for %d step commands" % (case["idx"], len(steps), nstep_ops))
@@ -425,6 +475,13 @@ def check_traj_case(c, case, r, ev, sp, tag, wd):
                     viol("traj_value:" + what, "%s step %d column %s: written %s, engine-side record of that step %s"
                          % (os.path.basename(path), e["it"], name, p, [fl(x) for x in want]))
                     return nver
+                if what == "work" and name[2:] in tbw and e["it"] in tbw[name[2:]]:
+                    wt = tbw[name[2:]][e["it"]]
+                    if abs(p[0] - wt) > 1e-9 * max(1.0, abs(wt), abs(p[0])):
+                        viol("traj_work_definition", "%s step %d column %s: written %.14g, sum over the steps so far of dU/dk (k_s - k_(s-1)) from the "
+                             "values the variable took = %.14g" % (os.path.basename(path), e["it"], name, p[0], wt))
+                        return nver
+                    c.bump("traj_work_definition_checks")
                 c.bump("traj_columns_compared")
                 c.note_set("traj_quantities_compared", what)
             nver += 1
